@@ -32,6 +32,7 @@ type CheckConfig struct {
 	MustReach            []string         `json:"must_reach"`
 	Params               map[string]int64 `json:"params"`                 // harness parameters (read via verifParam)
 	SkipNativeValidation string           `json:"skip_native_validation"` // reason; passing samples are not re-run natively
+	TrustSymbolic        string           `json:"trust_symbolic"`         // reason why a counterexample that does not reproduce natively is still reported
 	NativeTimeoutIsStall bool             `json:"native_timeout_is_stall"`
 	VirtualHorizonS      int              `json:"virtual_horizon_s"` // stall detection horizon (virtual seconds)
 	AllocEnumerate       int              `json:"alloc_enumerate"`   // symbolic allocation sizes up to this are enumerated
